@@ -92,10 +92,11 @@ func main() {
 			{"a", "set", []string{"a"}, 0}, {"b", "set", []string{"b"}, 0}, {"ab", "set", []string{"a", "b"}, 0}, {"ba", "set", []string{"b", "a"}, 0},
 			{"abc", "set", []string{"a", "b", "c"}, 0}, {"cab", "set", []string{"c", "a", "b"}, 0}, {"bca", "set", []string{"b", "c", "a"}, 0}, {"cba", "set", []string{"c", "b", "a"}, 0},
 			{"A", "set", []string{"A"}, 0}, {"a_", "set", []string{"a "}, 0}, {"aa", "set", []string{"aa"}, 0},
-			{"fail", "none", nil, 1}, {"failL", "set", []string{"a"}, 2},
+			{"a,b(one label)", "set", []string{"a,b"}, 0}, {"emptystring", "set", []string{""}, 0}, {"a+empty", "set", []string{"a", ""}, 0},
+			{"fail", "none", nil, 1}, {"failL", "set", []string{"a"}, 2}, {"zero-ScryptRecipient(wrap fails)", "real", nil, 3},
 		}
 		maxLen := c.Pick(4, 5)
-		c.Bound("every list of 1..%d recipients over %d label declarations (no WrapWithLabels method, nil, empty, {a}, {b}, {a,b} in both orders, {a,b,c} in 4 orders, case and whitespace variants, a failing recipient with and without labels), each wrapping through a real X25519 recipient", maxLen, len(kinds))
+		c.Bound("every list of 1..%d recipients over %d label declarations (no WrapWithLabels method, nil, empty, {a}, {b}, {a,b} in both orders, {a,b,c} in 4 orders, case and whitespace variants, a label containing a comma, the empty-string label, failing recipients with and without labels incl. a zero-value ScryptRecipient), each wrapping through a real X25519 recipient", maxLen, len(kinds))
 		keyset := []*keys.Key{keys.X(0), keys.X(1), keys.X(2), keys.X(3), keys.X(4)}
 		var rec func(cur []int)
 		cnt := 0
@@ -114,6 +115,9 @@ func main() {
 						names = append(names, k.name)
 						p := plain{inner: keyset[pos].Rcpt, asked: &asked, pos: pos}
 						switch {
+						case k.fail == 3:
+							// the zero value of ScryptRecipient is reachable through the public API; its Wrap fails (N = 1)
+							rs = append(rs, &age.ScryptRecipient{})
 						case k.fail == 1:
 							rs = append(rs, &failing{plain: p})
 						case k.fail == 2:
